@@ -226,6 +226,8 @@ func init() {
 					{"IncludeSources of another source + IncludeNames", lint.FilterOptions{IncludeSources: lint.SourceList{other}, IncludeNames: []string{n}}},
 					{"IncludeSources of another source + ExcludeNames", lint.FilterOptions{IncludeSources: lint.SourceList{other}, ExcludeNames: []string{n}}},
 					{"ExcludeNames twice and IncludeNames of another lint", lint.FilterOptions{IncludeNames: []string{names[(i+1)%len(names)]}, ExcludeNames: []string{n, n}}},
+					{"IncludeNames naming it twice (as overlapping profiles do)", lint.FilterOptions{IncludeNames: []string{n, n}}},
+					{"IncludeNames naming it twice, once padded", lint.FilterOptions{IncludeNames: []string{n, names[(i+1)%len(names)], " " + n + " "}}},
 				}
 				for _, cb := range combos {
 					if _, err := g.Filter(cb.o); err != nil {
@@ -235,7 +237,7 @@ func init() {
 					}
 				}
 			}
-			out.Count("name_filters_in_combination", 5*len(names))
+			out.Count("name_filters_in_combination", 7*len(names))
 		}
 		out.Data["names_rejected"] = badNames
 		out.Count("name_filters", 2*len(names))
